@@ -4,6 +4,7 @@ import re
 
 from ..core import astutil as A
 from ..core import bashlex as B
+from ..core import match as M
 from ..core.eapitable import EapiTables
 
 META = {
@@ -144,7 +145,7 @@ def run(ctx):
     ceo = em.assigns.get("common_env_optionals")
     ctx.check("R4", "pkgcore.ebuild.eapi", ceo is not None and "accumulate_properties_restrict" in (A.try_literal(ceo, default=()) or ()), "gate-exported", "the option is exported to the daemon (PKGCORE_ACCUMULATE_PROPERTIES_RESTRICT)")
     ee = P.func("pkgcore.ebuild.eapi", "EAPI.ebd_env")
-    ctx.check("R4", ee, "d[f'PKGCORE_{k.upper()}'] = str(getattr(self.options, k)).lower()" in A.unparse(ee.node), "gate-spelling", "exported as PKGCORE_<OPTION> = true/false (what `if ${PKGCORE_...}` executes)")
+    ctx.check("R4", ee, M.has(ee.node, "for $k in $_:\n    $d[f'PKGCORE_{$k.upper()}'] = str(getattr(self.options, $k)).lower()"), "gate-spelling", "exported as PKGCORE_<OPTION> = true/false (what `if ${PKGCORE_...}` executes)")
     ctx.floor("R4", 3)
 
     # ---- R5 phases / python side -------------------------------------------------------------------------------------
@@ -152,9 +153,12 @@ def run(ctx):
     ctx.check("R5", EB + ":__dump_metadata_keys", '__is_function "${phase}" && phases+=( ${phase} )' in dm and '"key DEFINED_PHASES=${phases[@]:--}"' in dm and 'for phase in "${PKGCORE_EBUILD_PHASES[@]}"' in dm, "defined-phases", "DEFINED_PHASES lists the phase functions that exist, '-' when none")
     ctx.check("R5", EB + ":__dump_metadata_keys", '[[ ${!key:-unset} != "unset" ]]' in dm and 'for key in "${PKGCORE_METADATA_KEYS[@]}"' in dm, "keys-dumped", "every non-empty metadata key of the EAPI is reported")
     um = P.func("pkgcore.ebuild.ebuild_src", "package_factory._update_metadata")
-    tu = A.unparse(um.node)
-    ctx.check("R5", um, "wipes.difference_update(eapi.metadata_keys)" in tu and "wipes = set(mydata)" in tu, "foreign-keys-dropped", "keys outside the EAPI's metadata keys are dropped")
-    ctx.check("R5", um, "if mydata['DEFINED_PHASES'] != '-':" in tu and "phases.discard(None)" in tu, "phases-normalised", "phase function names are mapped to phase names of the EAPI; unknown ones are discarded")
+    # locals are bound by role: the dict the daemon returned, the EAPI object it names, the set of keys to delete
+    mk = M.one(um.node, "$mydata = $_.get_keys(pkg, self._ecache)")
+    me = mk and M.one(um.node, "$eapi = get_eapi($mydata.get('EAPI', $_))", mk.env)
+    ctx.check("R5", um, bool(me) and M.has(um.node, "$wipes = set($mydata)\n$wipes.difference_update($eapi.metadata_keys)\nfor $x in $wipes:\n    del $mydata[$x]", me.env),
+              "foreign-keys-dropped", "keys outside the EAPI's metadata keys are dropped")
+    ctx.check("R5", um, bool(mk) and M.has(um.node, "if $mydata['DEFINED_PHASES'] != '-':\n    $phases.discard(None)", mk.env), "phases-normalised", "phase function names are mapped to phase names of the EAPI; unknown ones are discarded")
     ctx.floor("R5", 4)
 
 
